@@ -44,6 +44,17 @@ func (c *trCtx) freeVars(except []types.Object, nodes ...ast.Node) []types.Objec
 			return true
 		})
 	}
+	// a `return` inside the nodes also reads what every result carries: the parameters assigned through and the captured state
+	for _, n := range nodes {
+		if n != nil && !isNilNode(n) && trHasReturn(n) {
+			for _, m := range c.fn.mutObjs {
+				used[m] = true
+			}
+			for _, v := range c.stateVars {
+				used[v] = true
+			}
+		}
+	}
 	ex := map[types.Object]bool{}
 	for _, o := range except {
 		ex[o] = true
@@ -171,8 +182,9 @@ func (c *trCtx) forStmt(x *ast.ForStmt, k trK) trLines {
 	}
 	savedLoop, savedPre := c.loop, c.takePre()
 	lc := &trLoopCtx{kind: "for", flow: flow, outer: savedLoop}
+	ph, x0, a0 := c.extrasMark()
 	rec := func() trLines {
-		return trOne(name + " " + strings.Join(append(append([]string{}, callArgs...), append([]string{"fuel"}, sargs...)...), " "))
+		return trOne(name + ph + " " + strings.Join(append(append([]string{}, callArgs...), append([]string{"fuel"}, sargs...)...), " "))
 	}
 	afterBody := func() trLines {
 		if x.Post == nil {
@@ -194,11 +206,12 @@ func (c *trCtx) forStmt(x *ast.ForStmt, k trK) trLines {
 	m := trLines{"match fuel with", "| 0 => Outcome.outOfFuel", "| fuel + 1 =>"}
 	m = append(m, body.indent(2)...)
 	def := trWrapPre(condPre, trIte(cond, m, trOne(exit)))
-	head := "def " + name + " " + strings.Join(append(append(params, "(fuel : Nat)"), sparams...), " ") + " : Outcome " + resTy + " :="
+	exDecls, exNames := c.extrasSince(ph, x0, a0, def)
+	head := "def " + name + exDecls + " " + strings.Join(append(append(params, "(fuel : Nat)"), sparams...), " ") + " : Outcome " + resTy + " :="
 	c.aux = append(c.aux, "/-- loop of `"+c.fn.leanName+"` at "+c.t.l.relPos(x.Pos())+"; state: "+strings.Join(sargs, ", ")+" -/\n"+head+"\n"+def.indent(2).String()+"\n")
 
 	// ---- the call
-	call := name + " " + strings.Join(append(append([]string{}, callArgs...), append([]string{"(" + fuel + ")"}, sargs...)...), " ")
+	call := name + exNames + " " + strings.Join(append(append([]string{}, callArgs...), append([]string{"(" + fuel + ")"}, sargs...)...), " ")
 	st := c.fresh("st")
 	if !flow {
 		if len(state) == 1 {
@@ -409,6 +422,7 @@ func (c *trCtx) rangeRec(x *ast.RangeStmt, elemTy types.Type, m *types.Map, k tr
 	if m == nil && keyName != "" && !strMode {
 		idx = c.fresh("idx")
 	}
+	ph, x0, a0 := c.extrasMark()
 	recArgs := func(first bool) string {
 		parts := append([]string{}, callArgs...)
 		parts = append(parts, items)
@@ -420,7 +434,7 @@ func (c *trCtx) rangeRec(x *ast.RangeStmt, elemTy types.Type, m *types.Map, k tr
 			}
 		}
 		parts = append(parts, sargs...)
-		return name + " " + strings.Join(parts, " ")
+		return name + ph + " " + strings.Join(parts, " ")
 	}
 	savedLoop, savedPre := c.loop, c.takePre()
 	lc := &trLoopCtx{kind: "rangerec", flow: flow, outer: savedLoop, wrapOk: effect}
@@ -463,7 +477,8 @@ func (c *trCtx) rangeRec(x *ast.RangeStmt, elemTy types.Type, m *types.Map, k tr
 		ps = append(ps, "("+idx+" : Int)")
 	}
 	ps = append(ps, sparams...)
-	head := "def " + name + " " + strings.Join(ps, " ") + " : " + resTy + " :="
+	exDecls, exNames := c.extrasSince(ph, x0, a0, def)
+	head := "def " + name + exDecls + " " + strings.Join(ps, " ") + " : " + resTy + " :="
 	c.aux = append(c.aux, "/-- range loop of `"+c.fn.leanName+"` at "+c.t.l.relPos(x.Pos())+"; state: "+strings.Join(sargs, ", ")+" -/\n"+head+"\n"+def.indent(2).String()+"\n")
 
 	// ---- the call
@@ -481,7 +496,7 @@ func (c *trCtx) rangeRec(x *ast.RangeStmt, elemTy types.Type, m *types.Map, k tr
 		callParts = append(callParts, "(0 : Int)")
 	}
 	callParts = append(callParts, sargs...)
-	call := name + " " + strings.Join(callParts, " ")
+	call := name + exNames + " " + strings.Join(callParts, " ")
 	st := c.fresh("st")
 	if !flow && len(state) == 1 {
 		st = c.names[state[0]]
